@@ -182,9 +182,27 @@ def state_sw(rough=True, lnrange=3.0, frmax=3.0, smooth_amp=0.1, machmax=None):
     return st.builds(lambda h, m: dict(lnh=h, froude=m), ln, fr)
 
 
+def _not_zero_profile(sd):
+    u = sd["u"]
+    k = u["k"]
+    if k == "const":
+        return u["v"] != 0
+    if k == "vals":
+        return any(x != 0 for x in u["v"])
+    if k == "steps":
+        return any(x != 0 for x in u["levels"])
+    if k == "fourier":
+        return u["mean"] != 0 or any(m[0] != 0 for m in u["modes"])
+    if k == "saw":
+        return u["mean"] != 0 or u["amp"] != 0
+    return True
+
+
 def state_for(model_desc, rough=True, **kw):
     n = model_desc["name"]
-    if n in ("convection", "burgers"):
+    if n == "burgers":      # Burgers' time step is CFL*dx/|u|: data must not be identically zero
+        return state_scalar(rough).filter(_not_zero_profile)
+    if n == "convection":
         return state_scalar(rough)
     if n == "shallowwater":
         return state_sw(rough, **kw)
